@@ -14,6 +14,7 @@ import (
 	"fmt"
 	"io"
 	"os"
+	"sync/atomic"
 	"testing/synctest"
 
 	"golang.org/x/crypto/nacl/box"
@@ -104,7 +105,7 @@ func (w *world) runMITM(acts []simrt.Action) {
 	w.goOwned("hs-a", func() { sa, ea = p2p.MakeSecretConnection(l1.A, ka) })
 	w.goOwned("hs-b", func() { sb, eb = p2p.MakeSecretConnection(l2.B, kb) })
 	lowKey := len(acts) == 0 || acts[0].A%3 != 0
-	var plaintext, relayed int
+	var plaintext, relayed int64 // written by both relay directions
 	w.goOwned("mallory", func() {
 		var aPub, bPub [32]byte
 		if _, err := io.ReadFull(l1.B, aPub[:]); err != nil {
@@ -131,8 +132,8 @@ func (w *world) runMITM(acts []simrt.Action) {
 				if err != nil {
 					return
 				}
-				plaintext += int(binary.BigEndian.Uint16(f))
-				relayed++
+				atomic.AddInt64(&plaintext, int64(binary.BigEndian.Uint16(f)))
+				atomic.AddInt64(&relayed, 1)
 				if to.writeFrame(f) != nil {
 					return
 				}
@@ -149,7 +150,7 @@ func (w *world) runMITM(acts []simrt.Action) {
 	l2.B.Close()
 	synctest.Wait()
 	out.Evals["C20.mitm"]++
-	out.Probes["mitm_frames_decrypted_and_relayed"] += relayed
+	out.Probes["mitm_frames_decrypted_and_relayed"] += int(atomic.LoadInt64(&relayed))
 	if os.Getenv("VERIF_DEBUG_SEED") != "" {
 		fmt.Printf("mitm: low key %v, frames relayed %d, plaintext bytes %d, a: %v, b: %v\n", lowKey, relayed, plaintext, ea, eb)
 	}
